@@ -306,6 +306,12 @@ def r9(ctx):
                f"with an external dispatcher a receive that fails with {name} makes read() end as {bad[0].kind} {bad[0].exc_class or bad[0].value!r} "
                f"(handleDisconnect called: {'handleDisconnect' in [e.name for e in bad[0].effects]}): the loss escapes into the external loop and no reconnect is scheduled",
                bad[0].raise_loc or idx.loc(idx.func(READ).node) if bad else idx.loc(idx.func(READ).node), {"path": path_text(bad[0])} if bad else None)
+        # ... and the callback then says "stop calling me": an external loop (rel) re-arms a read / timeout callback that returns a true
+        # value, so a truthy result after a loss keeps the dead transport registered and every further event on it reports the loss again
+        truthy = [o for o in outs if o.kind == "return" and "handleDisconnect" in [e.name for e in o.effects] and I.truth(o.run, o.value, None, fork=False) is not False]
+        ctx.ob(f"{READ}:external-dispatcher:{name}:result-falsy-after-loss", not truthy and bool(outs), "read() returns a false value after reporting the loss" if not truthy else
+               f"after reporting {name} to handleDisconnect read() returns {truthy[0].value!r}: an external dispatcher keeps the lost transport's read registration alive, "
+               f"the loss is reported again and a second reconnect is scheduled (two connections for one loss)", idx.loc(idx.func(READ).node), {"path": path_text(truthy[0])} if truthy else None)
     # ping/pong timeout detected by check()
     st = sock_stubs(extra=dict(hd_stub, **{"time.time": lambda I, run, a, k, n: C(1000.0)}))
     I = Interp(idx, Config(stubs=st))
@@ -320,6 +326,10 @@ def r9(ctx):
            f"with an external dispatcher an expired ping makes check() end as {bad[0].kind} {bad[0].exc_class or bad[0].value!r}: the timeout is raised inside the "
            f"external loop's timer callback and never reaches handleDisconnect (no on_error, no reconnect)", bad[0].raise_loc or idx.loc(idx.func(CHECK).node) if bad else "",
            {"path": path_text(bad[0])} if bad else None)
+    truthy = [o for o in outs if o.kind == "return" and "handleDisconnect" in [e.name for e in o.effects] and I.truth(o.run, o.value, None, fork=False) is not False]
+    ctx.ob(f"{CHECK}:external-dispatcher:ping-timeout:result-falsy-after-loss", not truthy and bool(outs), "check() returns a false value after reporting the timeout" if not truthy else
+           f"after reporting the ping timeout check() returns {truthy[0].value!r}: the external loop re-arms the check timer of the lost connection", idx.loc(idx.func(CHECK).node),
+           {"path": path_text(truthy[0])} if truthy else None)
 
 
 @rule("R-C15-10", min_instances=3, title="a re-established connection is pinged again: fresh stop event, thread started once after connect")
